@@ -285,15 +285,16 @@ def forms_stream(ctx, out, budget):
                      parallel=False, show_progress=(True if form == "list" else rng.random() < 0.5))
             cases.append((w, apply_form_case(ctx, w)))
         # directory-qualified identifiers, shared base names across directories, serial and parallel, both store classes
-        for i in range(ctx.budget(8, 80) * (1 if key == 1 else 2)):
-            spec = gen_pipeline(rng, rng.randint(2, 5), allow_sleep=(i % 2 == 1), family=rng.random() < 0.3)
+        for i in range(ctx.budget(6, 80) * (1 if key == 1 else 2)):
+            par = (i % 3 == 1) if not ctx.thorough and key == 1 else (i % 2 == 1)  # a parallel run costs a pool start-up: two per quick run
+            spec = gen_pipeline(rng, rng.randint(2, 5), allow_sleep=par, family=rng.random() < 0.3)
             inputs = []
             for j, m in enumerate(spec["members"]):
                 dirs = rng.sample(["batchA", "batchB", "batchC"], 2 if (j == 0 or rng.random() < 0.5) else 1)
                 inputs += [[d, m] for d in dirs]
             rng.shuffle(inputs)
             w = dict(kind="qualified_id", form="list", inputs=inputs, members=[m for _, m in inputs], spec=_spec_to_json(spec), store=rng.choice(["dir", "sqlite"]),
-                     parallel=(i % 2 == 1), max_workers=rng.choice([2, 3]), show_progress=False)
+                     parallel=par, max_workers=rng.choice([2, 3]), show_progress=False)
             cases.append((w, qualified_case(ctx, w)))
         cache[key] = cases
     for w, f in cache[key]:
